@@ -168,7 +168,16 @@ func (nc *nodeCase) runCrashPoints(maxPoints int) {
 			// re-delivery of what is already stored must be harmless)
 			bad := false
 			var badSig, badDetail string
+			// blocks that were (re-)delivered while the node's best block was LOWER than they are:
+			// these do not take the "already processed" exit of processBlock, they are saved and
+			// applied to the checkpoint tree again
+			resaved := map[string]bool{}
 			for _, e := range nc.events {
+				if e.kind == "deliver" {
+					if b := nc.nm.blocks[e.name]; b != nil && b.Height > n.chain.BestBlockHeight() {
+						resaved[e.name] = true
+					}
+				}
 				r := nc.applyEvent(n, e)
 				if os.Getenv("CRASHDBG") == fmt.Sprintf("%d:%d", len(log), k) {
 					fmt.Fprintln(os.Stderr, "DBG", e.kind, e.name, e.src, e.tgt, r, nc.segs(nc.dump(r), "best", "just", "tree"))
@@ -204,6 +213,12 @@ func (nc *nodeCase) runCrashPoints(maxPoints int) {
 					// are not put back into the checkpoint tree by a restart (and re-delivery takes the
 					// "already processed" exit), so the fork choice cannot select that branch's tip
 					sg += ":stored-tail-not-in-tree"
+					// ... which is F34b only when the re-delivery of that tip took the "already processed"
+					// exit: a stored block ABOVE the best height at the time it is re-delivered is saved
+					// and applied to the checkpoint tree again
+					if resaved[strings.TrimPrefix(nc.segs(finalDump, "best"), "best=")] {
+						sg += ":although-resaved"
+					}
 				}
 				return sg, where + ": after re-delivery " + nc.segs(d2, "best", "main") + " but the crash-free run ends with " + nc.segs(finalDump, "best", "main")
 			} else if ledgerOf(d2) != ledgerOf(finalDump) {
